@@ -53,6 +53,10 @@ func ToUnicode(name string, dingbats bool) []rune {
 			res = append(res, c)
 			continue
 		}
+		if seq, ok := glyph.lookupSeq("glyphlist", part); ok {
+			res = append(res, seq...)
+			continue
+		}
 
 		if strings.HasPrefix(part, "uni") && len(part)%4 == 3 {
 			good := true
@@ -118,6 +122,9 @@ type glyphMap struct {
 	sync.Mutex
 	nameToRune map[string]map[string]rune
 	runeToName map[rune]string
+
+	// nameToSeq holds the entries which denote several characters.
+	nameToSeq map[string]map[string][]rune
 }
 
 func (gm *glyphMap) encode(r rune) string {
@@ -174,6 +181,16 @@ func (gm *glyphMap) lookup(file, name string) (rune, bool) {
 	return c, ok
 }
 
+// lookupSeq looks up a glyph name which denotes a sequence of characters.
+func (gm *glyphMap) lookupSeq(file, name string) ([]rune, bool) {
+	gm.Lock()
+	defer gm.Unlock()
+
+	gm.getFile(file)
+	seq, ok := gm.nameToSeq[file][name]
+	return seq, ok
+}
+
 func (gm *glyphMap) getFile(file string) map[string]rune {
 	fMap := gm.nameToRune[file]
 	if fMap != nil {
@@ -194,6 +211,22 @@ func (gm *glyphMap) getFile(file string) map[string]rune {
 		}
 		ww := strings.SplitN(line, ";", 2)
 		name := ww[0]
+		if fields := strings.Fields(ww[1]); len(fields) > 1 {
+			// the entry denotes several characters
+			seq := make([]rune, len(fields))
+			for i, field := range fields {
+				code, _ := strconv.ParseInt(field, 16, 32)
+				seq[i] = rune(code)
+			}
+			if gm.nameToSeq == nil {
+				gm.nameToSeq = make(map[string]map[string][]rune)
+			}
+			if gm.nameToSeq[file] == nil {
+				gm.nameToSeq[file] = make(map[string][]rune)
+			}
+			gm.nameToSeq[file][name] = seq
+			continue
+		}
 		code, _ := strconv.ParseInt(ww[1], 16, 32)
 
 		// fix up some swapped character codes
